@@ -59,6 +59,25 @@ func encMsg(p, k int64, di bool, es []gEnt, fs []gFeat) hx.Zs {
 
 func regOp(p, kd, fid int64, a []int64) hx.Zs { return append(hx.Zs{2, p, kd, fid}, encA(a)...) }
 
+// duringOp turns a message op [1 p k ...] into [3 p k p2 kd fid alen a.. ...]: peer p2's request call for its
+// feature (a, fid) is delivered while the message of p is being processed
+func duringOp(msg hx.Zs, p2, kd, fid int64, a []int64) hx.Zs {
+	z := hx.Zs{3, msg[1], msg[2], p2, kd, fid}
+	z = append(z, encA(a)...)
+	stats["message-with-concurrent-call"]++
+	return append(z, msg[3:]...)
+}
+
+// during wraps a message of s so that another peer's subscription / binding call arrives meanwhile
+func wrapDuring(ss []*sim, s *sim, msg hx.Zs) hx.Zs {
+	o := ss[(int(s.p)+1+s.r.Intn(len(ss)-1))%len(ss)]
+	if s.r.Chance(1, 12) {
+		o = s // the same peer: not delivered
+	}
+	call := o.reg(int64(s.r.Intn(2)))
+	return duringOp(msg, call[1], call[2], call[3], call[5:])
+}
+
 var stats = map[string]int{}
 
 func extra() map[string]any {
@@ -66,7 +85,11 @@ func extra() map[string]any {
 	for k, v := range stats {
 		out[k] = v
 	}
-	return map[string]any{"generated_message_classes": out}
+	cs := map[string]any{}
+	for k, v := range callStats {
+		cs[k] = v
+	}
+	return map[string]any{"generated_message_classes": out, "concurrent_request_calls": cs}
 }
 
 // ---- a peer as the generator imagines it (only to steer the generation)
@@ -381,13 +404,22 @@ func gen(r *hx.Rng, tier string, i int) []hx.Zs {
 				as, st := s.someStates(r.Range(1, 2), 1, 0, 0, 0)
 				h = append(h, s.partial(as, st))
 			case 1:
+				var m hx.Zs
 				if len(s.tree) > 1 {
-					h = append(h, s.partial([][]int64{s.tree[1+r.Intn(len(s.tree)-1)].e.a}, []int64{2}))
+					m = s.partial([][]int64{s.tree[1+r.Intn(len(s.tree)-1)].e.a}, []int64{2})
 				} else {
-					h = append(h, s.partial([][]int64{s.nonZeroAddr()}, []int64{2}))
+					m = s.partial([][]int64{s.nonZeroAddr()}, []int64{2})
 				}
+				if r.Chance(1, 3) {
+					m = wrapDuring(ss, s, m)
+				}
+				h = append(h, m)
 			case 2:
-				h = append(h, s.full(25, 25, 0))
+				m := s.full(25, 25, 0)
+				if r.Chance(1, 3) {
+					m = wrapDuring(ss, s, m)
+				}
+				h = append(h, m)
 			case 3:
 				h = append(h, s.reg(int64(r.Intn(4))))
 			case 4:
@@ -435,11 +467,39 @@ func gen(r *hx.Rng, tier string, i int) []hx.Zs {
 				if len(s.tree) > 1 && r.Chance(3, 4) {
 					as[0] = s.tree[1+r.Intn(len(s.tree)-1)].e.a
 				}
-				h = append(h, s.partial(as, st))
+				if len(s.tree) > 1 && r.Chance(1, 2) {
+					// make sure the entity that goes holds an entry of the kind of the call that arrives meanwhile
+					e := s.tree[1+r.Intn(len(s.tree)-1)]
+					kd := int64(r.Intn(2))
+					for _, f := range e.fs {
+						if f.ro != 1 {
+							h = append(h, regOp(s.p, kd, f.id, e.e.a))
+							break
+						}
+					}
+					o := ss[(int(s.p)+1+r.Intn(len(ss)-1))%len(ss)]
+					call := o.reg(kd)
+					as[0] = e.e.a
+					h = append(h, duringOp(s.partial(as, st), call[1], call[2], call[3], call[5:]))
+					break
+				}
+				m := s.partial(as, st)
+				if r.Chance(1, 2) {
+					m = wrapDuring(ss, s, m)
+				}
+				h = append(h, m)
 			case 1:
-				h = append(h, s.full(50, 10, 0))
+				m := s.full(50, 10, 0)
+				if r.Chance(1, 2) {
+					m = wrapDuring(ss, s, m)
+				}
+				h = append(h, m)
 			case 2:
-				h = append(h, s.reply(true))
+				m := s.reply(true)
+				if r.Chance(1, 2) {
+					m = wrapDuring(ss, s, m)
+				}
+				h = append(h, m)
 			case 3:
 				h = append(h, s.reg(int64(r.Intn(4))))
 			default:
@@ -552,5 +612,12 @@ func fixed(tier string) [][]hx.Zs {
 		encMsg(1, 1, true, []gEnt{e([]int64{1, 1}, 1), e([]int64{1, 1}, 1), e([]int64{2, 1}, 2)}, []gFeat{f([]int64{1, 1}, 1, 0), f([]int64{1, 1}, 2, 1)}),
 		regOp(1, 0, 1, []int64{1, 1}), regOp(0, 0, 1, []int64{1}),
 		encMsg(1, 1, false, []gEnt{e([]int64{1, 1}, 2), e([]int64{1}, 2)}, nil)})
+	// 9-11. peer 1's request call arrives while peer 0's entity [1] (which holds a subscription and a binding) is removed
+	// by a partial notification / a reply / a full notification that no longer lists it: the call must not be lost
+	setup := []hx.Zs{reply01, reply11, regOp(0, 0, 1, []int64{1}), regOp(0, 1, 1, []int64{1})}
+	with := func(o hx.Zs) []hx.Zs { return append(append([]hx.Zs(nil), setup...), o) }
+	hs = append(hs, with(duringOp(encMsg(0, 1, true, []gEnt{e([]int64{1}, 2)}, nil), 1, 0, 1, []int64{1})))
+	hs = append(hs, with(duringOp(encMsg(0, 0, true, []gEnt{e([]int64{0}, 0)}, []gFeat{nm}), 1, 1, 1, []int64{1})))
+	hs = append(hs, with(duringOp(encMsg(0, 2, true, []gEnt{e([]int64{0}, 0)}, []gFeat{nm}), 1, 0, 1, []int64{1})))
 	return hs
 }
